@@ -336,6 +336,91 @@ theorem displacement1_tric_min {c : Consts} (hc : Std c) (d : Vec) (b : Box) (hd
       linarith
     exact ⟨key _ hs0.1, key _ hs0.2.1, key _ hs0.2.2⟩
 
+theorem dot_bound_half {e a : Vec} (h : e.normSq * a.normSq < 1 / 4) : -(1 / 2 : Rat) < e.dot a ∧ e.dot a < 1 / 2 := by
+  have hl := lagrange e a
+  have hn := normSq_nonneg (e.cross a)
+  have hsq : e.dot a * e.dot a < 1 / 4 := by linarith
+  constructor <;> nlinarith
+
+theorem int_eq_zero_of_abs_lt_one {m : Int} (h1 : -(1 : Rat) < (m : Rat)) (h2 : (m : Rat) < 1) : m = 0 := by
+  have a : (-1 : Int) < m := by exact_mod_cast h1
+  have b : m < (1 : Int) := by exact_mod_cast h2
+  omega
+
+/-- Orthogonal BRANCH (taken whenever `is_orthogonal` says so, i.e. also for boxes that are orthogonal only within its
+absolute tolerance): a periodic image whose fractional components all lie strictly inside `(-1/2, 1/2)` IS the result. -/
+theorem displacement1_orthobranch_inner {c : Consts} (hc : Std c) (d : Vec) (b : Box) (hdet : b.det ≠ 0)
+    (ho : isOrthogonal c b = true) :
+    ∃ r, displacement1 c d b = .ok r ∧
+      ∀ i j k : Int, ∀ fe, coordToFraction (d.add (vecMul (ofInts i j k) b)) b = some fe →
+        (-(1 / 2 : Rat) < fe.x ∧ fe.x < 1 / 2) → (-(1 / 2 : Rat) < fe.y ∧ fe.y < 1 / 2) → (-(1 / 2 : Rat) < fe.z ∧ fe.z < 1 / 2) →
+        r = d.add (vecMul (ofInts i j k) b) := by
+  obtain ⟨f, hf⟩ : ∃ f, coordToFraction d b = some f := ⟨_, coordToFraction_eq d b hdet⟩
+  have hd : fractionToCoord f b = d := fractionToCoord_coordToFraction d f b hf
+  simp only [displacement1, hf, hc.dispMod, ho, if_true]
+  refine ⟨_, rfl, ?_⟩
+  intro i j k fe hfe hx hy hz
+  have he : d.add (vecMul (ofInts i j k) b) = fractionToCoord (f.add (ofInts i j k)) b := by
+    rw [← hd, shift_eq]; rfl
+  rw [he, coordToFraction_fractionToCoord _ b hdet] at hfe
+  cases hfe
+  obtain ⟨nx, ex, lx, ux⟩ := wrapHalf_spec hc f.x
+  obtain ⟨ny, ey, ly, uy⟩ := wrapHalf_spec hc f.y
+  obtain ⟨nz, ez, lz, uz⟩ := wrapHalf_spec hc f.z
+  simp only [V3.add, ofInts] at hx hy hz
+  have zx : nx + i = 0 := int_eq_zero_of_abs_lt_one (by push_cast; linarith) (by push_cast; linarith)
+  have zy : ny + j = 0 := int_eq_zero_of_abs_lt_one (by push_cast; linarith) (by push_cast; linarith)
+  have zz : nz + k = 0 := int_eq_zero_of_abs_lt_one (by push_cast; linarith) (by push_cast; linarith)
+  rw [he]
+  simp only [dispOrtho, fractionToCoord]
+  congr 1
+  have cx : (i : Rat) = -(nx : Rat) := by
+    have h : i = -nx := by omega
+    rw [h]; push_cast; ring
+  have cy : (j : Rat) = -(ny : Rat) := by
+    have h : j = -ny := by omega
+    rw [h]; push_cast; ring
+  have cz : (k : Rat) = -(nz : Rat) := by
+    have h : k = -nz := by omega
+    rw [h]; push_cast; ring
+  apply V3.ext' <;> simp only [V3.map1, V3.add, ofInts]
+  · rw [ex, cx]; ring
+  · rw [ey, cy]; ring
+  · rw [ez, cz]; ring
+
+/-- EITHER branch: whenever some periodic image is shorter than half of every box height, the returned displacement is
+the shortest of ALL images — also for boxes `is_orthogonal` accepts although they are skewed. -/
+theorem displacement1_min_below_half_height {c : Consts} (hc : Std c) (d : Vec) (b : Box) (hdet : b.det ≠ 0)
+    (hshort : ∃ i j k : Int, Short b (d.add (vecMul (ofInts i j k) b))) :
+    ∃ r, displacement1 c d b = .ok r ∧
+      ∀ i j k : Int, r.normSq ≤ (d.add (vecMul (ofInts i j k) b)).normSq := by
+  cases ho : isOrthogonal c b
+  · exact displacement1_tric_min hc d b hdet ho hshort
+  · obtain ⟨r, hr, hin⟩ := displacement1_orthobranch_inner hc d b hdet ho
+    refine ⟨r, hr, ?_⟩
+    have short_le : ∀ i j k : Int, Short b (d.add (vecMul (ofInts i j k) b)) →
+        r.normSq ≤ (d.add (vecMul (ofInts i j k) b)).normSq := by
+      intro i j k hs
+      rw [hin i j k _ (coordToFraction_eq _ b hdet) (dot_bound_half hs.1) (dot_bound_half hs.2.1) (dot_bound_half hs.2.2)]
+    obtain ⟨i0, j0, k0, hs0⟩ := hshort
+    have h0 := short_le i0 j0 k0 hs0
+    intro i j k
+    by_cases hs : Short b (d.add (vecMul (ofInts i j k) b))
+    · exact short_le i j k hs
+    · by_contra hlt
+      have hlt' := not_le.mp hlt
+      apply hs
+      have key : ∀ a : Vec, (d.add (vecMul (ofInts i0 j0 k0) b)).normSq * a.normSq < 1 / 4 →
+          (d.add (vecMul (ofInts i j k) b)).normSq * a.normSq < 1 / 4 := by
+        intro a ha
+        have := mul_le_mul_of_nonneg_right (le_of_lt (lt_of_lt_of_le hlt' h0)) (normSq_nonneg a)
+        linarith
+      exact ⟨key _ hs0.1, key _ hs0.2.1, key _ hs0.2.2⟩
+
+theorem displacement1_singular {c : Consts} (d : Vec) (b : Box) (h : b.det = 0) :
+    displacement1 c d b = .error .singular := by
+  simp [displacement1, coordToFraction_none d b h]
+
 /-! ### lattice translations do not change `displacement` -/
 
 theorem pymod_add_int (q : Rat) (i : Int) : pymod (q + (i : Rat)) 1 = pymod q 1 := by
